@@ -1108,3 +1108,327 @@ pub async fn verif_filtered_session(
     let _ = p.process(session, sess_rx, live_sessions).await;
     capture.take()
 }
+
+/// Verification hook (feature `verif-hooks`), add-only: run the REAL
+/// `Processor::process` session loop to its end over a script of the events
+/// its `select!` can see, whatever ends it.
+///
+/// The scripted session is the single source of events: every iteration of
+/// the loop calls `tick()` afresh, and that call makes exactly one event
+/// available - its own result (`Ok`, `Err`), one message on the session
+/// channel, one command for the gate, or the closing of the session channel.
+/// So at any time at most one branch of the `select!` can complete, and the
+/// order of the script is the order in which the loop sees the events,
+/// whatever order the branches are polled in. When the script is over the
+/// session channel is closed (all senders gone).
+///
+/// Returned: every `Update` that left the gate (a recording direct-update
+/// link, re-subscribed to the new gate on a reconfiguration the way the
+/// links of a reloaded configuration are), the keys left in `live_sessions`,
+/// the commands the processor sent to the session, how many events it
+/// took, and whether it came to an end at all.
+#[cfg(feature = "verif-hooks")]
+pub mod verif_session_end {
+    use super::*;
+    use crate::comms::{AnyDirectUpdate, DirectUpdate, GateAgent, Link};
+    use std::collections::VecDeque;
+    use std::net::IpAddr;
+    use std::sync::atomic::{AtomicUsize, Ordering};
+
+    /// What a `GateStatus::Reconfiguring` carries, relative to the running
+    /// configuration.
+    #[derive(Clone, Copy, Debug)]
+    pub enum Reconf {
+        /// the main configuration (listen address, ASN, BGP id) changed
+        Unit,
+        /// nothing this session cares about changed
+        Same,
+        /// this peer's configuration changed
+        Peer,
+        /// this peer is no longer configured
+        Gone,
+    }
+
+    pub enum Event {
+        /// `tick()` returns `Ok(())`
+        TickOk,
+        /// `tick()` returns `Ok(())` and from now on `negotiated()` is
+        /// `Some` (the FSM handled the OPEN; the `SessionNegotiated`
+        /// message is a separate event)
+        Negotiate,
+        /// `tick()` returns `Err`
+        TickErr(&'static str),
+        /// `Message::SessionNegotiated` arrives (`negotiated()` is `Some`
+        /// by then at the latest, as with the real session, which stores the
+        /// negotiated configuration before it sends the message)
+        SessionNegotiated,
+        Update(UpdateMessage<Bytes>),
+        Notification,
+        /// `Message::ConnectionLost(Some(socket) | None)`
+        ConnectionLost(bool),
+        /// every sender of the session channel is dropped
+        ChannelClosed,
+        /// the unit is terminated (`GateCommand::Terminate`)
+        Terminate,
+        Reconfigure(Reconf),
+    }
+
+    #[derive(Debug)]
+    pub struct Outcome {
+        pub finished: bool,
+        pub consumed: usize,
+        pub updates: Vec<Update>,
+        pub live: Vec<(IpAddr, Asn)>,
+        pub commands: Vec<&'static str>,
+    }
+
+    /// The key under which the scripted session registers
+    /// (`NegotiatedConfig::dummy()`).
+    pub fn peer_key() -> (IpAddr, Asn) {
+        let n = NegotiatedConfig::dummy();
+        (n.remote_addr(), n.remote_asn())
+    }
+
+    #[derive(Debug, Default)]
+    struct Recorder(Mutex<Vec<Update>>);
+
+    #[async_trait::async_trait]
+    impl DirectUpdate for Recorder {
+        async fn direct_update(&self, update: Update) {
+            self.0.lock().unwrap().push(update);
+        }
+    }
+
+    impl AnyDirectUpdate for Recorder {}
+
+    /// Subscribes a link that records into `target` to `gate`, handling the
+    /// one Subscribe command on the spot.
+    async fn subscribe(
+        gate: &Gate,
+        agent: &mut GateAgent,
+        target: &Arc<dyn AnyDirectUpdate>,
+    ) -> Link {
+        let mut link = agent.create_link();
+        link.set_direct_update_target(target.clone());
+        let res = tokio::select! {
+            res = link.connect(false) => res,
+            _ = async { loop { let _ = gate.process().await; } } => unreachable!(),
+        };
+        res.expect("gate is alive");
+        link
+    }
+
+    fn unit_config(kind: Option<Reconf>) -> BgpTcpIn {
+        let my_asn = match kind {
+            Some(Reconf::Unit) => 65001,
+            _ => 65000,
+        };
+        let peers = match kind {
+            Some(Reconf::Gone) => {
+                "[peers.\"5.6.7.8\"]\nname = \"other\"\nremote_asn = []\n"
+            }
+            Some(Reconf::Peer) => {
+                "[peers.\"1.2.3.4\"]\nname = \"verif\"\nremote_asn = []\nhold_time = 30\n"
+            }
+            _ => "[peers.\"1.2.3.4\"]\nname = \"verif\"\nremote_asn = []\n",
+        };
+        toml::from_str(&format!(
+            "listen = \"127.0.0.1:0\"\nmy_asn = {my_asn}\nmy_bgp_id = [1, 1, 1, 1]\n{peers}"
+        ))
+        .expect("unit config")
+    }
+
+    struct Scripted {
+        config: CombinedConfig,
+        negotiated: Option<NegotiatedConfig>,
+        script: VecDeque<Event>,
+        consumed: Arc<AtomicUsize>,
+        sess_tx: Option<mpsc::Sender<Message>>,
+        agent: GateAgent,
+        target: Arc<dyn AnyDirectUpdate>,
+        links: Vec<Link>,
+    }
+
+    #[async_trait::async_trait]
+    impl BgpSession<CombinedConfig> for Scripted {
+        fn config(&self) -> &CombinedConfig {
+            &self.config
+        }
+        fn connected_addr(&self) -> Option<SocketAddr> {
+            Some("1.2.3.4:179".parse().unwrap())
+        }
+        fn negotiated(&self) -> Option<&NegotiatedConfig> {
+            self.negotiated.as_ref()
+        }
+        async fn tick(&mut self) -> Result<(), session::Error> {
+            let Some(event) = self.script.pop_front() else {
+                self.sess_tx = None;
+                return std::future::pending().await;
+            };
+            self.consumed.fetch_add(1, Ordering::SeqCst);
+            let msg = match event {
+                Event::TickOk => return Ok(()),
+                Event::Negotiate => {
+                    self.negotiated = Some(NegotiatedConfig::dummy());
+                    return Ok(());
+                }
+                Event::TickErr(msg) => {
+                    return Err(session::Error::for_str(msg))
+                }
+                Event::SessionNegotiated => {
+                    self.negotiated
+                        .get_or_insert_with(NegotiatedConfig::dummy);
+                    Some(Message::SessionNegotiated(NegotiatedConfig::dummy()))
+                }
+                Event::Update(pdu) => Some(Message::UpdateMessage(pdu)),
+                Event::Notification => {
+                    // Cease / Administrative Shutdown
+                    let mut pdu = vec![0xffu8; 16];
+                    pdu.extend_from_slice(&[0, 21, 3, 6, 2]);
+                    Some(Message::NotificationMessage(
+                        routecore::bgp::message::NotificationMessage::from_octets(
+                            Bytes::from(pdu),
+                        )
+                        .expect("notification"),
+                    ))
+                }
+                Event::ConnectionLost(with_socket) => {
+                    Some(Message::ConnectionLost(if with_socket {
+                        self.connected_addr()
+                    } else {
+                        None
+                    }))
+                }
+                Event::ChannelClosed => {
+                    self.sess_tx = None;
+                    None
+                }
+                Event::Terminate => {
+                    self.agent.terminate().await;
+                    None
+                }
+                Event::Reconfigure(kind) => {
+                    let (new_gate, mut new_agent) = Gate::new(0);
+                    let link =
+                        subscribe(&new_gate, &mut new_agent, &self.target)
+                            .await;
+                    self.links.push(link);
+                    self.agent
+                        .reconfigure(
+                            Unit::BgpTcpIn(unit_config(Some(kind))),
+                            new_gate,
+                        )
+                        .await
+                        .expect("gate is alive");
+                    // the running gate listens to the new gate's commands
+                    // from now on
+                    self.agent = new_agent;
+                    None
+                }
+            };
+            if let (Some(msg), Some(tx)) = (msg, self.sess_tx.as_ref()) {
+                tx.try_send(msg).expect("room in the session channel");
+            }
+            std::future::pending().await
+        }
+    }
+
+    /// `pre_live`: keys that are in `live_sessions` before the session
+    /// starts (sessions of other connections). `timeout`: how long to wait
+    /// for `process` to return.
+    pub async fn run(
+        roto_function: Option<RotoFunc>,
+        ingress_id: ingress::IngressId,
+        pre_live: Vec<(IpAddr, Asn)>,
+        events: Vec<Event>,
+        timeout: std::time::Duration,
+    ) -> Outcome {
+        let (gate, mut agent) = Gate::new(0);
+        let recorder = Arc::new(Recorder::default());
+        let target: Arc<dyn AnyDirectUpdate> = recorder.clone();
+        let link = subscribe(&gate, &mut agent, &target).await;
+
+        let n_events = events.len();
+        let (cmds_tx, mut cmds_rx) = mpsc::channel(n_events + 16);
+        let (pdu_out_tx, _pdu_out_rx) = mpsc::channel(16);
+        let unit_cfg = unit_config(None);
+        let peer_config: super::super::peer_config::PeerConfig =
+            toml::from_str("name = \"verif\"\nremote_asn = []\n")
+                .expect("peer config");
+        let remote_net = super::super::peer_config::PrefixOrExact::Exact(
+            "1.2.3.4".parse().unwrap(),
+        );
+        let (sess_tx, sess_rx) = mpsc::channel::<Message>(n_events + 2);
+        let consumed = Arc::new(AtomicUsize::new(0));
+        let session = Scripted {
+            config: CombinedConfig::new(
+                unit_cfg.clone(),
+                peer_config,
+                remote_net,
+            ),
+            negotiated: None,
+            script: events.into(),
+            consumed: consumed.clone(),
+            sess_tx: Some(sess_tx),
+            agent,
+            target,
+            links: vec![link],
+        };
+        let mut p = Processor::new(
+            roto_function,
+            gate,
+            unit_cfg,
+            cmds_tx,
+            pdu_out_tx,
+            Default::default(),
+            Default::default(),
+            ingress_id,
+        );
+        let live_sessions =
+            Arc::new(Mutex::new(std::collections::HashMap::new()));
+        {
+            let mut live = live_sessions.lock().unwrap();
+            for key in pre_live {
+                let (tx, _) = mpsc::channel(1);
+                let (pdu_tx, _) = mpsc::channel(1);
+                live.insert(key, (tx, pdu_tx));
+            }
+        }
+        let res = tokio::time::timeout(
+            timeout,
+            p.process(session, sess_rx, live_sessions.clone()),
+        )
+        .await;
+        let finished = res.is_ok();
+        // the session (with its links) lives until here
+        drop(res);
+        let mut commands = vec![];
+        while let Ok(cmd) = cmds_rx.try_recv() {
+            commands.push(match cmd {
+                Command::Disconnect(reason) => match reason {
+                    DisconnectReason::ConnectionRejected => "rejected",
+                    DisconnectReason::Reconfiguration => "reconfiguration",
+                    DisconnectReason::Deconfigured => "deconfigured",
+                    DisconnectReason::HoldTimerExpired => "holdtimer",
+                    DisconnectReason::Shutdown => "shutdown",
+                    DisconnectReason::FsmViolation(_) => "fsmviolation",
+                    DisconnectReason::Other => "other",
+                },
+                Command::AttachStream { .. } => "attachstream",
+                Command::GetAttributes { .. } => "getattributes",
+                Command::ForcedKeepalive => "keepalive",
+            });
+        }
+        let mut live: Vec<(IpAddr, Asn)> =
+            live_sessions.lock().unwrap().keys().copied().collect();
+        live.sort();
+        let updates = std::mem::take(&mut *recorder.0.lock().unwrap());
+        Outcome {
+            finished,
+            consumed: consumed.load(Ordering::SeqCst),
+            updates,
+            live,
+            commands,
+        }
+    }
+}
